@@ -15,9 +15,10 @@ func (s *Translator) translateDelete(scope *Scope, cypherDelete *cypher.Delete) 
 		} else {
 			switch typedExpression := expression.(type) {
 			case pgsql.Identifier:
-				if deleteFrame, err := scope.PushFrame(); err != nil {
-					return err
-				} else if _, err := s.query.CurrentPart().mutations.AddDeletion(scope, typedExpression, deleteFrame); err != nil {
+				// The frame of a deletion is pushed when the deletions are built. Updating clauses are
+				// collected first and rendered together; pushing the frame here would chain the frames of
+				// updates that follow - or that are rendered after - behind a DELETE that returns no rows.
+				if _, err := s.query.CurrentPart().mutations.AddDeletion(scope, typedExpression, nil); err != nil {
 					return err
 				}
 			default:
@@ -30,12 +31,25 @@ func (s *Translator) translateDelete(scope *Scope, cypherDelete *cypher.Delete) 
 }
 
 func (s *Translator) buildDeletions(scope *Scope) error {
+	// Every deletion reads the rows of the last frame that produces rows: the last reading or updating
+	// frame of the query part. A DELETE itself returns nothing that a later deletion could read.
+	sourceFrame := scope.CurrentFrame()
+	if sourceFrame == nil {
+		return fmt.Errorf("expected a frame to delete from")
+	}
+
 	for _, identifierDeletion := range s.query.CurrentPart().mutations.Deletions.Values() {
+		if deleteFrame, err := scope.PushFrame(); err != nil {
+			return err
+		} else {
+			identifierDeletion.Frame = deleteFrame
+		}
+
 		var (
 			sqlDelete = pgsql.Delete{
 				Using: []pgsql.FromClause{{
 					Source: pgsql.TableReference{
-						Name: pgsql.CompoundIdentifier{identifierDeletion.Frame.Previous.Binding.Identifier},
+						Name: pgsql.CompoundIdentifier{sourceFrame.Binding.Identifier},
 					},
 				}},
 			}
@@ -75,12 +89,17 @@ func (s *Translator) buildDeletions(scope *Scope) error {
 
 		s.query.CurrentPart().Model.AddCTE(pgsql.CommonTableExpression{
 			Alias: pgsql.TableAlias{
-				Name: scope.CurrentFrameBinding().Identifier,
+				Name: identifierDeletion.Frame.Binding.Identifier,
 			},
 			Query: pgsql.Query{
 				Body: sqlDelete,
 			},
 		})
+
+		// The deletion frame names the CTE only. What follows - a RETURN - still reads the source frame.
+		if err := scope.PopFrame(); err != nil {
+			return err
+		}
 	}
 
 	return nil
